@@ -15,7 +15,8 @@ History lines (state = the current stream and the saved positions):
 * `char` / `lit C` / `cset CS` / `slit C` / `scset CS` — `fcppt::parse::parse` of basic_char /
                                   basic_literal / basic_char_set, `skipper::run` of the skippers
 
-Each answers one observation `<op>=<value>/<eof><fail><bad>`.
+Each answers one observation `<op>=<value>/<eof><fail><bad>@<line>:<col>` — the istream state bits and
+the stream's stored location after the operation.
 
 Stateless lines:
 
@@ -34,6 +35,10 @@ open Fcppt.Proto
 
 def flagsStr (s : IStream) : String := "/" ++ b01 s.eof ++ b01 s.fail ++ b01 s.bad
 
+/-- flags and the stored location (`stream::location_`, read by the harness without going through
+    `get_position`) -/
+def stateStr (s : Stream) : String := flagsStr s.is ++ s!"@{s.loc.line}:{s.loc.col}"
+
 def posStr (p : Pos) : String :=
   match p.loc with
   | some l => s!"{p.off}@{l.line}:{l.col}"
@@ -42,7 +47,7 @@ def posStr (p : Pos) : String :=
 def opTag : Op → String
   | .get => "g" | .pos => "p" | .set _ => "s"
 
-def obsStr (op : Op) (o : Obs) (s : IStream) : String :=
+def obsStr (op : Op) (o : Obs) (s : Stream) : String :=
   let v := match o with
     | .ch (some c) => toString c
     | .ch none => "none"
@@ -50,14 +55,14 @@ def obsStr (op : Op) (o : Obs) (s : IStream) : String :=
     | .ok => "ok"
     | .exc => "exc"
     | .noSlot => "noslot"
-  opTag op ++ "=" ++ v ++ flagsStr s
+  opTag op ++ "=" ++ v ++ stateStr s
 
 def mix (h : UInt64) (v : Nat) : UInt64 := (h ^^^ v.toUInt64) * 1099511628211
 
 def flagsNum (s : IStream) : Nat :=
   16 + (if s.eof then 1 else 0) + (if s.fail then 2 else 0) + (if s.bad then 4 else 0)
 
-def mixObs (h : UInt64) (o : Obs) (s : IStream) : UInt64 :=
+def mixObs (h : UInt64) (o : Obs) (s : Stream) : UInt64 :=
   let h := match o with
     | .ch (some c) => mix (mix h 1) c
     | .ch none => mix h 2
@@ -68,19 +73,19 @@ def mixObs (h : UInt64) (o : Obs) (s : IStream) : UInt64 :=
       | none => mix (mix (mix (mix h 4) p.off.toNat) 0) 0
     | .ok => mix h 5
     | .noSlot => mix h 6
-  mix h (flagsNum s)
+  mix (mix (mix h (flagsNum s.is)) s.loc.line) s.loc.col
 
 /-- run a history, digesting every observation -/
 def runDigest (h0 : UInt64) (st : HState) (ops : List Op) : UInt64 :=
   (ops.foldl (fun (acc : UInt64 × HState) op =>
     let (st', o) := step acc.2 op
-    (mixObs acc.1 o st'.s.is, st')) (h0, st)).1
+    (mixObs acc.1 o st'.s, st')) (h0, st)).1
 
 /-- run a history, rendering every observation -/
 def runText (st : HState) (ops : List Op) : HState × List String :=
   let r := ops.foldl (fun (acc : HState × List String) op =>
     let (st', o) := step acc.1 op
-    (st', obsStr op o st'.s.is :: acc.2)) (st, [])
+    (st', obsStr op o st'.s :: acc.2)) (st, [])
   (r.1, r.2.reverse)
 
 /-! ### the fixed scripts -/
@@ -174,7 +179,7 @@ abbrev DState := Option (String × HState)     -- kind, history state
 
 def obs1 (st : HState) (op : Op) : HState × String :=
   let (st', o) := step st op
-  (st', obsStr op o st'.s.is)
+  (st', obsStr op o st'.s)
 
 def handle (d : DState) (toks : List String) : DState × String :=
   match toks with
@@ -208,14 +213,14 @@ def handle (d : DState) (toks : List String) : DState × String :=
     | some (k, st), some off, some loc =>
       let (s', r) := st.s.setPosition { off := off, loc := loc }
       let v := match r with | .ok () => "ok" | .error _ => "exc"
-      (some (k, { st with s := s' }), "s=" ++ v ++ flagsStr s'.is)
+      (some (k, { st with s := s' }), "s=" ++ v ++ stateStr s')
     | none, some _, some _ => (d, "no-stream")
     | _, _, _ => (d, "bad-op")
   | [p, arg] =>
     match d with
     | some (k, st) =>
       match runParser k p arg st.s with
-      | some (s', r) => (some (k, { st with s := s' }), "r=" ++ r ++ flagsStr s'.is)
+      | some (s', r) => (some (k, { st with s := s' }), "r=" ++ r ++ stateStr s')
       | none => (d, "bad-op")
     | none => if ["char", "lit", "cset", "slit", "scset"].contains p then (d, "no-stream") else (d, "bad-op")
   | ["hist", k, text, fa, ops] =>
@@ -257,7 +262,7 @@ def handle (d : DState) (toks : List String) : DState × String :=
       | some (s', r) =>
         let (st', o) := obs1 { st with s := s' } .pos
         let _ := st'
-        (d, "r=" ++ r ++ flagsStr s'.is ++ " " ++ o)
+        (d, "r=" ++ r ++ stateStr s' ++ " " ++ o)
       | none => (d, "bad-op")
     | _, _, _ => (d, "bad-op")
   | _ => (d, "bad-op")
